@@ -617,6 +617,8 @@ def run_case(case):
                 cur.update(h=last[0], clock=self.currentSimulationTime(), ef=getattr(_thunk_ef(last[3]), '_orig', _thunk_ef(last[3])), posted=True,
                            own=last[0], locus=None, member=True)
             cur['fresh'] = False
+            if case['dyn'] == 'syn' and cur.get('posted') and cur['own'] > st.get('step_t', 0.0) + 1.0 and not any(o[0] == 'sync' for o in info['oracle']):
+                info['oracle'].append(('sync', f"posted event due at {cur['own']} fired in timestep {st.get('step_t', 0.0) + 1.0}, before it was due"))
             key = ex.hnames[ex.hid(cur['ef'])]
             kind = ex.hkind.get(key, 'N')
             es = 'None' if e is None else str(L(e))
@@ -663,6 +665,7 @@ def run_case(case):
             if due and not any(o[0] == 'sync' for o in info['oracle']):
                 info['oracle'].append(('sync', f"the trials of timestep {t} are drawn while a posted event due at {min(due)} has not fired yet"))
             check_skipped()
+            st['step_t'] = t
             evs = super().allEventsInTimestep(t)
             st['tranche'] = [(l, e, fkey(f)) for (l, e, f, nm) in evs]
             rs = sr.recent[mark:]
